@@ -180,6 +180,9 @@ def run_unit(unit, cfg, tier="quick", timeout_ms=None, known=None):
         completed = False
         try:
             if isinstance(unit, Lemma):
+                interp = Interp(contracts=REGISTRY, loop_specs=list(getattr(unit, "loop_specs", ())),
+                                verifying=None, inline=getattr(unit, "inline", ()))
+                c.interp = interp
                 unit.run(c, cfg)
                 completed = True
             else:
